@@ -21,6 +21,7 @@ func init() {
 		NotCovered: "comments that sit inside a construct the XGo-specific node printers skip (a comment is written when the next printed token's position passes it; a node printed without positions delays, but does not drop, comments), and re-indentation of /* */ comment text by stripCommonPrefix (go/printer's behaviour).",
 		Run:        runC21,
 		Controls: []Control{
+			{Name: "format-result-from-shared-buffer", File: "format/internal.go", Old: "\t\tvar buf bytes.Buffer\n\t\terr := cfg.Fprint(&buf, fset, file)\n", New: "\t\tbuf := sharedBuf\n\t\tbuf.Reset()\n\t\terr := cfg.Fprint(buf, fset, file)\n", Old2: "// format formats the given package file originally obtained from src", New2: "var sharedBuf = new(bytes.Buffer)\n\n// format formats the given package file originally obtained from src", Expect: "own-buffer/format"},
 			{Name: "skip-line-comments-in-group", File: f, Old: "\t\tfor _, c := range p.comment.List {\n\t\t\tp.writeCommentPrefix(p.posFor(c.Pos()), next, last, tok)\n\t\t\tp.writeComment(c)\n\t\t\tlast = c\n\t\t}", New: "\t\tfor _, c := range p.comment.List {\n\t\t\tif last != nil && c.Text[1] == '/' && len(c.Text) == 2 {\n\t\t\t\tcontinue\n\t\t\t}\n\t\t\tp.writeCommentPrefix(p.posFor(c.Pos()), next, last, tok)\n\t\t\tp.writeComment(c)\n\t\t\tlast = c\n\t\t}", Expect: "comment-cursor/intersperseComments:every-comment"},
 			{Name: "cursor-skips-group", File: f, Old: "\t\tc := p.comments[p.cindex]\n\t\tp.cindex++\n", New: "\t\tc := p.comments[p.cindex]\n\t\tp.cindex += 2\n", Expect: "clone/printer.nextComment"},
 			{Name: "no-final-flush", File: f, Old: "\tp.flush(token.Position{Offset: infinity, Line: infinity}, token.EOF)\n", New: "", Expect: "comment-cursor/fprint:final-flush"},
@@ -42,12 +43,15 @@ var c21Deviations = map[string]struct{ hash, why string }{
 }
 
 func runC21(c *core.Check) {
-	prog := c.Load("./printer", "go/printer")
+	prog := c.Load("./printer", "go/printer", "./format", "./x/format")
 	x, g := prog.Pkg("./printer"), prog.Pkg("go/printer")
 	if x == nil || g == nil {
 		return
 	}
 	deadStateRule(c, x)
+	// the formatted text (with its comments) handed to the caller is the caller's own
+	c.Analysed("returned_buffer_sites", ownBufferRule(c, "own-buffer", x, prog.Pkg("./format"), prog.Pkg("./x/format")))
+	c.Floor("own-buffer", 2)
 	c.Trust("the Go 1.23.5 standard library source of go/printer as the reference sibling")
 	c.Assume("go/printer writes every comment it is given exactly once and in order (the property is established relative to that sibling)", "alpha-equivalence to the reference is a sufficient condition for agreement; a reported divergence means 'agreement can no longer be established', not 'behaviour differs'")
 
